@@ -126,8 +126,10 @@ def run_property(pid, tier, fdir=None, th=None, extract_s=0.0, quiet=False):
             hit.append(v)
         else:
             new.append(v)
-    os.makedirs(os.path.join(VERIF, 'reports'), exist_ok=True)
-    rpath = os.path.join(VERIF, 'reports', pid + '.txt')
+    # NV_OUT (development tools only: evaluating a scratch worktree) redirects the report and the evidence away from /verif
+    outroot = os.environ.get('NV_OUT') or VERIF
+    os.makedirs(os.path.join(outroot, 'reports'), exist_ok=True)
+    rpath = os.path.join(outroot, 'reports', pid + '.txt')
     with open(rpath, 'w') as fh:
         fh.write('property %s tier %s facts %s\n' % (pid, tier, th))
         for rid, text in rep.rules.items():
@@ -197,8 +199,8 @@ def run_property(pid, tier, fdir=None, th=None, extract_s=0.0, quiet=False):
         'wall_s': round(wall + extract_s, 2),
         'violations': len(new),
     }
-    os.makedirs(os.path.join(VERIF, 'evidence'), exist_ok=True)
-    with open(os.path.join(VERIF, 'evidence', pid + '.json'), 'w') as fh:
+    os.makedirs(os.path.join(outroot, 'evidence'), exist_ok=True)
+    with open(os.path.join(outroot, 'evidence', pid + '.json'), 'w') as fh:
         json.dump(ev, fh, indent=1, sort_keys=False)
     print('%s: %d instances, %d hold, %d known findings, %d unresolved, %d new violations (%.1fs)' % (
         pid, obligations, discharged, len(hit), len(rep.unresolved), len(new), wall))
@@ -278,12 +280,25 @@ def main(argv):
         facts.ensure_facts()
         return 0
     if cmd == 'check':
-        return run_property(argv[1], tier)
+        try:
+            return run_property(argv[1], tier)
+        except Exception:
+            import traceback
+            traceback.print_exc()
+            print('ERROR property=%s the check crashed (see traceback); no verdict' % argv[1])
+            return 2
     if cmd == 'all':
         fdir, th, dt = facts.ensure_facts()
         rc = 0
         for pid in claimed():
-            rc |= run_property(pid, tier, fdir, th, dt)
+            try:
+                rc |= run_property(pid, tier, fdir, th, dt)
+            except Exception:
+                # an internal failure of the checker is neither a pass nor a violation: say so and fail with a distinct code
+                import traceback
+                traceback.print_exc()
+                print('ERROR property=%s the check crashed (see traceback); no verdict' % pid)
+                rc |= 2
         return rc
     if cmd == 'inventory':
         # run on the tree the rules were developed on (after a fix: commit that adds functions): freezes the function inventory
